@@ -162,9 +162,13 @@ func quick(g *gwbox.Gateway, host, path string) (int, int) {
 }
 
 func TestPropRemovalCutsInflight(t *testing.T) {
-	sub := stats.NewSub("removal-timing", "rapid: what is removed (cluster c1 / the first endpoint of c1 / two of its three endpoints in ONE update, with a second request in flight on the other removed endpoint), when relative to a target request on that endpoint (before it is sent / while the stub delays its headers / after j = 1..5 streamed chunks), 0-3 bystanders (streams or held requests on the other endpoint of c1 and on cluster c2); oracle: the target ends at the client and its context dies at the stub within 2 s of the removal, and a target cut before the upstream answered gets a 5xx from the gateway (never a 2xx); the removed endpoint (optionally disabled and re-enabled before; optionally disabled - drained - while the target is in flight and still disabled when removed) receives no health probe later than 300 ms after the removal (probe period shortened to 20 ms by the verif hook); afterwards requests to the deleted cluster - by its name and by its alias server name - get 503 and nothing is forwarded, the removed endpoint is never picked again; bystander streams keep delivering chunks for 300 ms and finish normally when released, held bystander requests return 200; non-trivial = the removal happens while the target is connecting or streaming and there is >= 1 bystander; distinct by FNV-64 of the plan")
+	sub := stats.NewSub("removal-timing", "rapid: what is removed (cluster c1 / the first endpoint of c1 - by an update, or by deleting the cluster object and creating it again under the same name with a new uid before the deletion was processed / two of its three endpoints in ONE update, with a second request in flight on the other removed endpoint), when relative to a target request on that endpoint (before it is sent / while the stub delays its headers / after j = 1..5 streamed chunks), 0-3 bystanders (streams or held requests on the other endpoint of c1 and on cluster c2); oracle: the target ends at the client and its context dies at the stub within 2 s of the removal, and a target cut before the upstream answered gets a 5xx from the gateway (never a 2xx); the removed endpoint (optionally disabled and re-enabled before; optionally disabled - drained - while the target is in flight and still disabled when removed) receives no health probe later than 300 ms after the removal (probe period shortened to 20 ms by the verif hook); afterwards requests to the deleted cluster - by its name and by its alias server name - get 503 and nothing is forwarded, the removed endpoint is never picked again; bystander streams keep delivering chunks for 300 ms and finish normally when released, held bystander requests return 200; non-trivial = the removal happens while the target is connecting or streaming and there is >= 1 bystander; distinct by FNV-64 of the plan")
 	stats.Check(t, stats.N(20, 150), func(t *rapid.T) {
-		what := rapid.SampledFrom([]string{"cluster", "endpoint", "two endpoints in one update"}).Draw(t, "remove")
+		what := rapid.SampledFrom([]string{"cluster", "endpoint", "two endpoints in one update", "endpoint, by deleting the cluster and creating it again without it"}).Draw(t, "remove")
+		recreated := what == "endpoint, by deleting the cluster and creating it again without it"
+		if recreated {
+			what = "endpoint"
+		}
 		when := rapid.SampledFrom([]string{"before", "connecting", "streaming", "streaming"}).Draw(t, "when")
 		j := rapid.IntRange(1, 5).Draw(t, "chunksBefore")
 		nBy := rapid.IntRange(0, 3).Draw(t, "bystanders")
@@ -192,7 +196,7 @@ func TestPropRemovalCutsInflight(t *testing.T) {
 			}
 			bys = append(bys, b)
 		}
-		plan := fmt.Sprintf("remove %s %s (j=%d) disable/enable before=%v disabled when removed=%v bystanders %+v", what, when, j, flap, drained, bys)
+		plan := fmt.Sprintf("remove %s (recreated=%v) %s (j=%d) disable/enable before=%v disabled when removed=%v bystanders %+v", what, recreated, when, j, flap, drained, bys)
 		g := gwbox.NewGateway()
 		defer g.Close()
 		g.SetToken("client-token", gwbox.Identity{Name: "alice"})
@@ -304,6 +308,12 @@ func TestPropRemovalCutsInflight(t *testing.T) {
 			}
 		} else if what == "endpoint" {
 			// endpoint 0 goes, 1 and the third endpoint stay
+			if recreated {
+				// the object is deleted and created again under the same name (a new uid) before the controller has
+				// processed the deletion: the event it processes finds the new object
+				g.Box.Remove(c1)
+				sub.Class("cluster-deleted-and-created-again-without-the-endpoint")
+			}
 			if res, err := g.Box.Apply(clusterObj3("c1", 1, 0, false, true)); err != nil || res.RequeueAfter > 0 {
 				t.Fatalf("endpoint removal failed: %v %v", err, res)
 			}
